@@ -57,7 +57,10 @@ func (d *Doc) SetID(docID string) {
 // Clone returns a deep copy of this document.
 func (d *Doc) Clone() Doc {
 	cp := Doc{
-		Fields: make(DocFields, len(d.Fields)),
+		Hidden:          d.Hidden,
+		Fields:          make(DocFields, len(d.Fields)),
+		Status:          d.Status,
+		SchemaVersionID: d.SchemaVersionID,
 	}
 
 	for i, v := range d.Fields {
